@@ -2181,14 +2181,16 @@ macro_rules! deserialize_numeric_key {
 
             match tri!(self.de.peek()) {
                 Some(b'0'..=b'9' | b'-') => {}
-                _ => return Err(self.de.error(ErrorCode::ExpectedNumericKey)),
+                Some(_) => return Err(self.de.error(ErrorCode::ExpectedNumericKey)),
+                None => return Err(self.de.peek_error(ErrorCode::EofWhileParsingString)),
             }
 
             let value = tri!(self.de.$delegate(visitor));
 
             match tri!(self.de.peek()) {
                 Some(b'"') => self.de.eat_char(),
-                _ => return Err(self.de.peek_error(ErrorCode::ExpectedDoubleQuote)),
+                Some(_) => return Err(self.de.peek_error(ErrorCode::ExpectedDoubleQuote)),
+                None => return Err(self.de.peek_error(ErrorCode::EofWhileParsingString)),
             }
 
             Ok(value)
